@@ -90,7 +90,7 @@ def crop_to_largest(
     shapes = np.asarray([_.shape for _ in data])
     max_shape = shapes.max(axis=0)
 
-    crop_start_per_shape = [-(max_shape - np.asarray(_)) // 2 for _ in shapes]
+    crop_start_per_shape = [-((max_shape - np.asarray(_)) // 2) for _ in shapes]
     crop_boxes = [_.tolist() + max_shape.tolist() for _ in crop_start_per_shape]
 
     return [crop_to_bbox(curr_data, bbox, pad_value=pad_value) for curr_data, bbox in zip(data, crop_boxes)]
